@@ -445,6 +445,11 @@ def write_replay(check_id, plan, violation, digest, tier, verif_seed, prefix=())
 
 
 def replay(path, repo="/repo", verbose=True):
+    with workspace.scratch_session():
+        return _replay(path, repo, verbose)
+
+
+def _replay(path, repo="/repo", verbose=True):
     """Re-execute a replay file against `repo`; returns (reproduced, result)."""
     with open(path, encoding="utf-8") as f:
         doc = json.load(f)
@@ -472,8 +477,13 @@ def replay(path, repo="/repo", verbose=True):
 TIER_DEFAULT_BUDGET = {"quick": 40.0, "thorough": 900.0}
 
 
-def run_check(check_id, tier="quick", verif_seed=1, repo="/repo", workers=None, budget_s=None,
-              max_plans=None, write_evidence=True, quiet=False):
+def run_check(*args, **kwargs):
+    with workspace.scratch_session():
+        return _run_check(*args, **kwargs)
+
+
+def _run_check(check_id, tier="quick", verif_seed=1, repo="/repo", workers=None, budget_s=None,
+               max_plans=None, write_evidence=True, quiet=False):
     t0 = time.time()
     workspace.sweep_stale()
     mod = load_check(check_id)
@@ -667,7 +677,12 @@ def write_evidence_file(mod, tier, verif_seed, agg, wall, explore_wall, workers,
     os.replace(tmp, os.path.join(d, f"{mod.ID}.json"))
 
 
-def digests(check_id, tier, verif_seed, repo, n, workers):
+def digests(*args):
+    with workspace.scratch_session():
+        return _digests(*args)
+
+
+def _digests(check_id, tier, verif_seed, repo, n, workers):
     """Per-seed (plan digest, trace digest) pairs, for the determinism self-test."""
     mod = load_check(check_id)
     batch = max(1, min(getattr(mod, "BATCH", 50), (n + workers - 1) // workers))
